@@ -264,6 +264,10 @@ func cmdCheck(args []string) int {
 			obs := p.runStatic(sname, &cfg, ld)
 			staticObls = append(staticObls, obs...)
 		}
+		// the byte layout of the declared key / prefix constructors (what A-KEYS rests on) is audited on every run
+		if *only == "" {
+			staticObls = append(staticObls, p.staticKeyLayout(ld)...)
+		}
 	}
 
 	// discharge
